@@ -8,7 +8,7 @@
    scanner takes as a real numeral ([real_numeral]: the number round trip is C10/C11's subject). *)
 From Coq Require Import NArith ZArith List Bool.
 From Qv Require Import gen.Tables_json JsonModel JsonSpec JsonProofsBase JsonProofsStr JsonProofsNum JsonProofsParse
-  JsonProofsComplete JsonProofsDoc JsonProofsInt JsonProofsWrite JsonProofsRoundtrip.
+  JsonProofsComplete JsonProofsDoc JsonProofsInt JsonProofsWrite JsonProofsRoundtrip JsonProofsRfc.
 Import ListNotations.
 Local Open Scope N_scope.
 
@@ -63,8 +63,12 @@ Definition c08_ex : vt :=
 Example c08_example : parse 0 (stringify c08_ex) = JOk (normalize c08_ex) /\ rfc_ok (stringify c08_ex) = true.
 Proof. split; vm_compute; reflexivity. Qed.
 
-(* NOT proved (correspondence only): RFC validity of the WHOLE text as a run of the recogniser
-   rfc_ok (proved piecewise: strings c08_str_rfc_valid, integers are decimal numerals without
-   leading zeros (dec_wf), containers have the shape open / members joined by commas / close
-   (the two c08_comma_patch_sound theorems); the extracted rfc_ok is run on every Stringify output of the check);
-   reals: that NumberToString(17) emits a real numeral that reads back to the same double (C10/C11). *)
+(* the text is valid JSON: the independent recogniser of RFC 8259 (rfc_ok, JsonModel.v) accepts the
+   whole text of every well-formed tree.  [reals_rfc t]: the text of every real is a number of the
+   RFC grammar (what NumberToString emits is C10's subject). *)
+Theorem c08_rfc_valid : forall t, twf t -> reals_rfc t -> tcontainer t = true -> rfc_ok (stringify t) = true.
+Proof. exact stringify_rfc_valid. Qed.
+Print Assumptions c08_rfc_valid.
+
+(* NOT proved: reals -- that NumberToString(17) emits a real numeral of the RFC grammar which
+   reads back to the same double (C10 / C11); the predicates real_numeral and real_rfc stand for it. *)
